@@ -3,6 +3,7 @@
 R10-a no de-duplication coarser than (path, visibility, attrs, comments) · R10-b merge guards dominate merges; share_prefix table
 R10-c grouping is a partition
 """
+import re
 from absint import explore, vkey, variant_name, TooManyPaths
 from common import short, bool_branches, edge_dominates, result_edges, loops_of
 
@@ -233,6 +234,7 @@ def run(ctx):
     rewritten_run_is_contiguous(ctx, "R10-f")
     flatten_never_imports_the_prefix(ctx, "R10-g")
     flatten_callers_keep_attributes(ctx, "R10-h")
+    merging_takes_lists_over_whole(ctx, "R10-i")
     C = r.rule("R10-c", "group_imports: every path through one loop iteration pushes the tree into exactly one of the groups")
     gi = p.fn("rustfmt_nightly::reorder::group_imports")
     if gi is None:
@@ -610,3 +612,38 @@ def flatten_callers_keep_attributes(ctx, rid):
                             "the call is not confined to trees without attributes and the granularity is not the constant Item: the "
                             "attributes of a split declaration are dropped", [c.loc()])
     r.floor(rid, n, 2, "external callers of UseTree::flatten")
+
+
+_DROPPING = ("filter", "filter_map", "skip", "skip_while", "take", "take_while", "step_by", "retain", "retain_mut", "dedup",
+             "dedup_by", "dedup_by_key", "drain", "truncate", "remove", "swap_remove", "pop", "split_off", "extract_if")
+
+
+def merging_takes_lists_over_whole(ctx, rid):
+    """R10-i: UseTree::merge / merge_rest combine two trees; neither selects among the sub-trees of a nested list"""
+    p, r = ctx.p, ctx.r
+    r.rule(rid, "imports::merge_rest and UseTree::merge (with their closures) put two use trees together: the nested lists they "
+                "combine are taken over whole (clone, extend, push). No element-dropping operation — filter, filter_map, skip*, "
+                "take*, retain, dedup*, drain, truncate, remove, pop — is applied there to a sequence of UseTree: the one import "
+                "merging may discard is the tree that equals the other (R10-e), and that is decided on whole paths, aliases "
+                "included. A filter that recognises `self` by its variant alone drops `self as x` together with the duplicate "
+                "`self` (`use foo; use foo::{self as f, bar};` ↦ `use foo::{self, bar};`)")
+    fam = [f for f in p.by_crate["rustfmt_nightly"]
+           if re.search(r"imports::(merge_rest|UseTree::merge)$", (f.root or f.id))]
+    seen = 0
+    for f in fam:
+        for c in f.calls():
+            tys = " ".join(c.ga) + " " + " ".join(f.locals[a[1][0]] for a in c.args if a[0] != "k") + " " + f.locals[c.dest[0]]
+            if "imports::UseTree" not in tys:
+                continue
+            last = re.sub(r"<.*?>", "", c.name).rsplit("::", 1)[-1]
+            if last in ("extend", "push", "clone", "to_vec", "cloned", "iter", "into_iter", "extend_from_slice", "collect") \
+                    or last in _DROPPING:
+                seen += 1
+            if last in _DROPPING and ("Iterator" in c.name or "Vec" in c.name or "slice" in c.name or "VecDeque" in c.name):
+                r.instance(rid, "%s: %s over use trees" % (short(f.root or f.id), last), "violation", c.loc())
+                r.violation(rid, "%s drops elements of a list of use trees (%s)" % (short(f.root or f.id), last),
+                            "merging selects among the sub-trees of a nested list with `%s`: an import the predicate takes for "
+                            "redundant (an aliased `self`, a tree equal up to its alias) disappears from the output" % last,
+                            [c.loc()])
+    r.instance(rid, "merge_rest / UseTree::merge: operations on sequences of use trees", "ok", "", "%d seen in %d bodies" % (seen, len(fam)))
+    r.floor(rid, seen, 2, "sequence operations over UseTree in merge_rest / UseTree::merge")
